@@ -1,27 +1,33 @@
 """Unit `continuation`: marwood/src/vm/continuation.rs — capture / restore of the machine state (C05)."""
 
 PRELUDE = r'''
-// `struct Continuation` derives Clone over a tuple field (not ingestible) and has private fields (no transparent
-// external spec): it is opaque here, with uninterpreted views; its one-line getters and the struct literal in
-// Vm::to_continuation carry assumed contracts (a Kani harness over a real Vm was tried and withdrawn: it does not finish).
-pub uninterp spec fn cont_stack(c: Continuation) -> Stack;
-pub uninterp spec fn cont_regs(c: Continuation) -> (usize, (usize, usize), usize);
+// `struct Continuation` derives Clone / Eq over a tuple field, which Verus cannot ingest: the struct is wrapped with
+// `#[verifier::external_derive]` (its derived impls stay external), its private fields are read through closed spec functions, and its
+// getters and the struct literal in Vm::to_continuation are VERIFIED against them.
+impl Continuation {
+    pub closed spec fn stack_spec(&self) -> Stack { self.stack }
+    pub closed spec fn regs_spec(&self) -> (usize, (usize, usize), usize) { (self.ep, self.ip, self.bp) }
+}
+pub open spec fn cont_stack(c: Continuation) -> Stack { c.stack_spec() }
+pub open spec fn cont_regs(c: Continuation) -> (usize, (usize, usize), usize) { c.regs_spec() }
 pub open spec fn cont_wf(c: Continuation) -> bool { cont_stack(c).wf() && cont_stack(c).cells().len() == cont_stack(c).sp_spec() + 1 }
 '''
 
 C5 = ['C05']
 UNITS = [{    'name': 'continuation',
     'file': 'src/vm/continuation.rs',
-    'wrap': [],
-    'uses_types': ['VCell', 'Heap', 'GlobalEnvironment', 'Continuation'],
+    'wrap': ['struct Continuation'],
+    'wrap_attrs': {'struct Continuation': '#[verifier::external_derive]'},
+    'wraps_types': ['Continuation'],
+    'uses_types': ['VCell', 'Heap', 'GlobalEnvironment'],
     'prelude': PRELUDE,
     'fns': {
-        'impl Continuation::stack': {'props': C5, 'trusted': True, 'ensures': [(C5, '*r == cont_stack(*self)')]},
-        'impl Continuation::ip': {'props': C5, 'trusted': True, 'ensures': [(C5, '*r == cont_regs(*self).1')]},
-        'impl Continuation::ep': {'props': C5, 'trusted': True, 'ensures': [(C5, 'r == cont_regs(*self).0')]},
-        'impl Continuation::bp': {'props': C5, 'trusted': True, 'ensures': [(C5, 'r == cont_regs(*self).2')]},
+        'impl Continuation::stack': {'props': C5 + ['C06'], 'ensures': [(C5, '*r == cont_stack(*self)')]},
+        'impl Continuation::ip': {'props': C5 + ['C06'], 'ensures': [(C5, '*r == cont_regs(*self).1')]},
+        'impl Continuation::ep': {'props': C5 + ['C06'], 'ensures': [(C5, 'r == cont_regs(*self).0')]},
+        'impl Continuation::bp': {'props': C5 + ['C06'], 'ensures': [(C5, 'r == cont_regs(*self).2')]},
         'impl Vm::to_continuation': {
-            'props': C5 + ['C06'], 'trusted': True,
+            'props': C5 + ['C06'],
             'requires': ['self.stack_spec().wf()'],
             'ensures': [
                 # the capture holds the live stack, sp, and the three control registers of this very moment
